@@ -88,6 +88,18 @@ pub fn harnesses() -> Vec<Harness> {
         h("H8-two-writers-two-keys", 60, 2, vec![Put("a", 3)], vec![vec![Put("a", 7), Del("b")], vec![Put("b", 4), Get("a")]]),
         h("H9-merge-twice-vs-read", 0, 1, vec![Put("a", 3), Put("a", 5)], vec![vec![Merge, Merge], vec![Get("a"), Get("a")]]),
     ];
+    v.extend(vec![
+        // merge copying a 9000-byte entry (several write calls) while a reader maps the merge file for another key
+        h("H4d-merge-big-vs-reads", MFS_BIG, 1, vec![Put("a", 3), Put("b", BIG), Put("a", 5)], vec![vec![Merge], vec![Get("a"), Get("b")]]),
+        // big overwrite with a rollover inside the put
+        h("H12-big-rollover-put-vs-reads", 60, 1, vec![Put("a", 3)], vec![vec![Put("a", BIG)], vec![Get("a"), Get("a")]]),
+        // two writers on one key with a rollover at every write, and a reader
+        h("H14-two-writers-one-key-rollover", 0, 1, vec![Put("a", 3)], vec![vec![Put("a", 7)], vec![Put("a", 8)], vec![Get("a")]]),
+        // delete vs merge vs read
+        h("H13-del-merge-get", 0, 1, vec![Put("a", 3), Put("a", 5)], vec![vec![Del("a")], vec![Merge], vec![Get("a")]]),
+        // reader that first touches the key whose file the merge removes, then the merged copy
+        h("H11-merge-vs-rereads", 0, 1, vec![Put("a", 3), Put("a", 5), Put("b", 4)], vec![vec![Merge], vec![Get("a"), Get("a")]]),
+    ]);
     // cache size 0: every read re-opens and re-maps its file
     let mut c0 = h("H4c-merge-vs-reads-cache0", 0, 1, vec![Put("a", 3), Put("b", 4)], vec![vec![Merge], vec![Get("a"), Get("b")]]);
     c0.cache = 0;
@@ -306,7 +318,10 @@ pub fn worker(job: &Job) -> Shard {
     let bound = bound_for(job.tier);
     let hss = harnesses();
     let mut first = true;
+    let base_bound = bound;
     for hs in hss.iter() {
+        // two-thread harnesses are explored one preemption deeper than three-thread ones
+        let bound = if hs.progs.len() <= 2 { base_bound + 1 } else { base_bound };
         // root execution: default schedule; its children are distributed over the shards
         let root = run_one(&[], hs, &dir);
         if first {
@@ -412,7 +427,7 @@ pub fn report_meta(_prop: &str, tier: Tier) -> (String, Value, Vec<String>) {
     let b = bound_for(tier);
     let hss = harnesses();
     let rule = format!(
-        "for each of {} harnesses (2-3 real threads, 1-2 Handle operations each, on one real store with forced key collisions) every schedule with at most {} preemptions is executed under a baton scheduler whose scheduling points are every interposed system call on a store file and every hook point before an access to shared state (writer mutex, KeyDir shard, reader pool, spin loop); depth-first search with replay by prefix; every execution runs to completion and is judged (no panic / error / deadlock / livelock, linearizable against the map model, final reads agree, pool restored). A schedule is distinct+non-trivial by (harness, outcome, thread order).",
+        "for each of {} harnesses (2-3 real threads, 1-2 Handle operations each, on one real store with forced key collisions) every schedule with at most {} preemptions (one more for the two-thread harnesses) is executed under a baton scheduler whose scheduling points are every interposed system call on a store file and every hook point before an access to shared state (writer mutex, KeyDir shard, reader pool, spin loop); depth-first search with replay by prefix; every execution runs to completion and is judged (no panic / error / deadlock / livelock, linearizable against the map model, final reads agree, pool restored). A schedule is distinct+non-trivial by (harness, outcome, thread order).",
         hss.len(),
         b
     );
